@@ -52,7 +52,8 @@ META = {
                  "chromosomes following a drawn coverage schedule; own reachability computation on the CDG edge lists as oracle",
     "design_ref": "DESIGN.md §3 C07",
     "rule": "case = pygen module model (if/elif/else, while, for, break/continue, try/except/else/finally, raise, early return, "
-            "with, match, boolean operators, closures, generator functions, a class) x optional C08 exclusion plan (about half "
+            "with, match, boolean operators, closures, generator functions, a class; ~25% with a directed function of C08, mostly a "
+            "marked if with an early exit directly after a try statement followed by further ifs) x optional C08 exclusion plan (about half "
             "of the cases) x schedule of 48 integers choosing which current goals get covered next (1-3 per step); "
             "the same integers steer up to 8 walks through the real CFGs (execution-shaped coverage); "
             "non-trivial = at least one goal at dependency depth >= 2 and the simulation reached the fix-point; a case with "
@@ -90,7 +91,11 @@ def strategy(ctx) -> st.SearchStrategy:
     def cases(draw: Any) -> dict[str, Any]:
         model = draw(modules)
         plan = None
-        if draw(st.integers(0, 9)) >= 4:
+        if draw(st.integers(0, 7)) >= 6:  # ~25%: directed shapes of C08 (mostly: excluded early exit right after a try)
+            model, forced = c08.add_directed(draw, model, shapes=(2, 2, 2, 0, 1))
+            plan = c08.directed_plan(draw, model, forced, weights={"def": 1, "simple": 1, "cond": 6, "clause": 5})
+            plan["only"] = []
+        elif draw(st.integers(0, 9)) >= 4:
             plan = draw(c08.plan_strategy(model, always=True, weights={"def": 1, "simple": 1, "cond": 6, "clause": 5}))
             # the documented ValueError for overlapping names is C08's subject
             plan["only"] = [n for n in plan["only"] if n not in plan["no"] and "$M." + n not in plan["ignore"]]
